@@ -20,6 +20,9 @@ def norm_headers(hs, iface):
     return sorted(out)
 
 
+_TIER = {"tier": "quick"}
+
+
 def inner_apps(tmpdir):
     """name -> (wsgi app factory, asgi app factory, has_duplicate_headers)"""
     import baize.wsgi as W
@@ -125,7 +128,7 @@ def inner_apps(tmpdir):
 
     extra = {}
     import itertools
-    for n in range(0, 4):
+    for n in range(0, 5 if _TIER["tier"] == "thorough" else 4):
         for seq in itertools.product(CHUNK_ALPHABET, repeat=n):
             for kind in ("list", "tuple", "gen"):
                 extra["chunks/%s/%s" % (kind, ",".join(c.decode() or "-" for c in seq))] = chunk_apps(kind, seq)
@@ -232,6 +235,7 @@ def case(name, iface, depth, kind, tmpdir):
 
 
 def replay(inputs):
+    _TIER["tier"] = "thorough"     # the superset of application names
     d = tempfile.mkdtemp(prefix="verif_c20_")
     try:
         v, dup = case(inputs["app"], inputs["iface"], inputs["depth"], inputs["kind"], d)
@@ -276,6 +280,7 @@ def header_edit_case(iface):
 
 
 def bounded(tier, seed):
+    _TIER["tier"] = tier
     evals = 0
     distinct = set()
     failures = []
@@ -286,7 +291,7 @@ def bounded(tier, seed):
         for iface in ("wsgi", "asgi"):
             for kind in ("middleware", "decorator"):
                 for name in list(apps) + (list(raw) if kind == "middleware" else []):
-                    for depth in range(0, 4):
+                    for depth in range(0, 5 if tier == "thorough" else 4):
                         evals += 1
                         v, dup = case(name, iface, depth, kind, d)
                         distinct.add((iface, kind, name, depth))
